@@ -12,6 +12,7 @@ CONSTANTS N = 3
  AggBatchFor = "none"
  MemoVerifier = FALSE
  DomainCache = TRUE
+ PeerVerifyLimit = 0
  ReplayPolicy = "admit"
 INVARIANTS TypeOK OnlyValidEnter PeerAllOrNothing
 CHECK_DEADLOCK FALSE
